@@ -46,7 +46,20 @@ def _case(rng):
     spec = pfile.gen_file(rng, maxlen=5, minlen=1, scalar_prob=0.05)
     names = [d[0] for d in spec['dims']]
     dim = rng.choice(names)
+    if len(names) >= 2 and rng.random() < 0.2:
+        # the record dimension is not the time-named one (t is declared first and fixed, e.g. hour-of-day bins next to an
+        # unlimited list of observations): the default stack dimension is the unlimited one
+        for d in spec['dims']:
+            d[2] = False
+        j = rng.randrange(1, len(names))
+        spec['dims'][j][2] = True
+        dim = names[j]
     n = {d[0]: d[1] for d in spec['dims']}[dim]
+    falling = rng.random() < 0.35       # a coordinate of the stack dimension that decreases (latitude north to south, pressure)
+    if falling:
+        for v in spec['vars']:
+            if v['name'] == dim and v['dims'] == [dim]:
+                v['data'] = [-x for x in v['data']]
     if kind == 'split':
         k = rng.randint(1, min(4, n))
         cuts = sorted(rng.sample(range(1, n), k - 1)) if k > 1 else []
@@ -77,6 +90,11 @@ def _case(rng):
         if i > 0 and rng.random() < 0.5:
             s2['attrs'] = list(s2['attrs']) + ['later%d' % i]      # global attributes come from the first file
         files.append(s2)
+    if falling:
+        for s2 in files:
+            for v in s2['vars']:
+                if v['name'] == dim and v['dims'] == [dim] and all(x is not None and x > 0 for x in v['data']):
+                    v['data'] = [-x for x in v['data']]
     if kind == 'bad':
         m = rng.choice(['novar', 'nodim', 'shared'])
         j = rng.randrange(1, k)
